@@ -36,3 +36,13 @@ pub fn key_len() -> (r: u16) ensures r == k_len() { unimplemented!() }
 // R11: `assert!(c)` is lowered to `if !(c) { vpanic(); }` — proving the call unreachable proves
 // that the assertion never fires.
 pub fn vpanic() requires false { }
+
+// R10: the key type K is opaque; only its byte view is visible to specifications.
+#[verifier::external_body]
+pub struct KeyT { _p: u8 }
+impl KeyT {
+    pub uninterp spec fn view(&self) -> Seq<u8>;
+    #[verifier::external_body]
+    pub fn clone(&self) -> (r: KeyT) ensures r@ == self@ { unimplemented!() }
+}
+
